@@ -229,6 +229,12 @@ func runC16(c c16Case) (out lib.Outcome) {
 		if tu.External == "" && sawMeta != strings.Join(want, "&") {
 			out.Violate("C16/handler-metadata", "turn %d: handler saw metadata %q, expected %q", i, sawMeta, strings.Join(want, "&"))
 		}
+		for _, e := range events {
+			if strings.HasPrefix(e, "intoken:") {
+				out.Violate("C16/handler-saw-token-on-batch", "turn %d: the input batch handed to Exchange carries a token in its own custom metadata (%s)", i, e)
+				break
+			}
+		}
 		for tok := range tokens {
 			if tok != "" && strings.Contains(sawMeta, tok) {
 				out.Violate("C16/handler-saw-token", "turn %d: a token reached the handler's InputMetadata", i)
